@@ -19,7 +19,9 @@ CONSTANTS Part     \* "expr" | "loader" | "interrupt"
 
 Carriers == {"output", "echo", "assign", "capture", "if", "elsif", "unless", "case", "when", "for", "forlimit", "tablerow", "cycle",
              "ternary", "ternarycond", "include_arg", "include_with", "include_for", "render_arg", "render_with", "render_for",
-             "with", "call_arg", "macro_default", "liquid", "ifchanged", "filter_arg", "range", "index", "include_name", "render_name"}
+             "with", "call_arg", "macro_default", "liquid", "ifchanged", "filter_arg", "range", "index", "include_name", "render_name",
+             (* a bound variable AND a keyword argument naming the same root: which scope is the bound expression evaluated in? *)
+             "include_with_shadow", "include_for_shadow", "render_with_shadow", "render_for_shadow", "with_shadow", "call_shadow"}
 (* expression forms over the variable x (and the helper variables y = "k", i = 0) *)
 Exprs == {"x", "x.k", "x[0]", "x['k']", "x[y]", "x[i]", "[x]", "[x].k", "[y]", "['x']", "x.size", "x.first", "x.last", "x[-1]",
           "x | upcase", "x | default: y", "x | append: x", "x | size", "x | join: y", "x.k.k", "nosuch", "nosuch.k"}
